@@ -66,7 +66,7 @@ def run(tier, out):
         "self_test": st,
     }
     cloudcommon.design(PID, tier, out, cov)
-    cloudcommon.part(PID, tier, out, cov)
+    cloudcommon.part(PID, tier, out, cov, extra={"timeout plans": tp + ".cloud"})
     return out.finish("model_checking", cov, assumptions=[
         "'last refresh' of a peer is read from the node's own expiry field (expiry - own timeout); the removal time is judged independently of it",
         "a delay of 0 (keepalive 0: announce on every tick) counts as 'at most one second'",
